@@ -9,13 +9,17 @@ from bounded.C09 import graphs, graph_cases, strands
 
 RULE = ("graphs as in C09; strands: ALL ACGT strings of length k..6 (quick) / k..8 (thorough) on the doc-string graph and complete order-1 "
         "graph from two start vertices, + the seeded walks / edited walks / random strings of C09 (first nucleotide not an arc, errors in the "
-        "last window); x indel on/off x check absent/present: returns within 5 s without raising a (list of str, (int, bool, int, int)) "
+        "last window) + strands with 20..128 detected errors (candidate products beyond 2^31, 2^63, 2^64, 2^127); x indel on/off x check absent/present: returns within 5 s without raising a (list of str, (int, bool, int, int)) "
         "pair, graph look-ups <= n + 9(2k-1)k(n/(k+1)+1)... checked as visited <= 40*k*k*(n+1); non-trivial = strand is not a walk")
 EXHAUSTIVE = {"quick": False, "thorough": False}
 CHUNK = 4
 
 
 def cases(tier, rng):
+    # many detected errors: the number of candidate combinations passes every machine-word boundary (2^31, 2^62..2^64, 2^127) and must still be
+    # stopped by the heap limit at once
+    for copies in (20, 31, 32, 40, 61, 62, 63, 64, 65, 70, 127, 128):
+        yield {"graph": "doc", "k": 2, "gseed": 0, "many_errors": copies, "nt": True}
     top = 6 if tier == "quick" else 8
     for g in ({"graph": "doc", "k": 2, "gseed": 0}, {"graph": "complete", "k": 1, "gseed": 0}):
         for L in range(g["k"], top + 1):
@@ -56,6 +60,12 @@ def check(case):
     acc, k = graphs(case)
     n = 4 ** k
     fails = []
+    if "many_errors" in case:
+        s = "TCTCTATCTC" * case["many_errors"]          # on the documentation graph from vertex 1: one detected error per copy, two candidates each
+        for chk in (None, "ACG"):
+            for indel in (False, True):
+                one(f"doc k=2 start=1 s='TCTCTATCTC'*{case['many_errors']} check={chk!r} indel={indel}", s, acc, 1, k, chk, indel, fails)
+        return fails
     if "all_len" in case:
         L = case["all_len"]
         pre = min(L, 3)
